@@ -67,7 +67,7 @@ Theorem C08_unchanged_refresh_no_commit :
     Inv w -> cur_state w = Some s -> last_error (s_applied s) = Some top ->
     pm_get (s_patches s) top = Some otop ->
     tree_eqb (w_wt w) (tree_of (w_objs w) otop) = true ->
-    step lower_s w CRefresh = (w', X0) ->
+    step lower_s w (CRefresh None) = (w', X0) ->
     forall n, patch_commit w' n = patch_commit w n.
 Proof. exact unchanged_refresh_no_commit. Qed.
 Print Assumptions C08_unchanged_refresh_no_commit.
